@@ -28,7 +28,7 @@ import (
 // ---- reference lists written from the standards (HTML Living Standard, CSS Values 4) ----
 
 var booleanStd = set("allowfullscreen async autofocus autoplay checked controls default defer disabled formnovalidate inert ismap itemscope loop multiple muted nomodule novalidate open playsinline readonly required reversed selected shadowrootclonable shadowrootdelegatesfocus shadowrootserializable " +
-	"compact declare nohref noresize noshade nowrap truespeed typemustmatch scoped seamless sortable allowpaymentrequest hidden")
+	"compact declare nohref noresize noshade nowrap truespeed typemustmatch scoped seamless sortable allowpaymentrequest") // not `hidden`: it is an enumerated attribute (hidden, until-found) in the Living Standard
 var urlStd = set("action cite data formaction href itemid manifest poster src background longdesc profile usemap classid codebase icon xmlns ping archive itemtype")
 var rawStd = set("script style textarea title iframe xmp noembed noframes noscript plaintext svg math") // svg/math: foreign content handed to its own minifier as one unit
 var boundaryStd = set("address article aside blockquote body center dd details dialog dir div dl dt fieldset figcaption figure footer form h1 h2 h3 h4 h5 h6 header hgroup hr html legend li listing main menu nav ol optgroup option p plaintext pre search section summary table ul xmp " +
